@@ -1,6 +1,7 @@
 CONSTANTS Urls <- UrlsC
           Texts <- TextsC
           Cfgs <- OneCfg
+          ForgetIdentRecord = TRUE
           ConfigRebuilds = TRUE
           MaxMsgs = 4
           MaxInFlight = 3
